@@ -86,3 +86,46 @@ Theorem C17_bucket_cleanup_exact : forall r bk bk' k', wf bk -> wf bk' ->
   meta_get (rf_del_bucket bk r) bk' k' = if beq bk bk' then None else meta_get r bk' k'.
 Proof. exact meta_del_bucket_get. Qed.
 Print Assumptions C17_bucket_cleanup_exact.
+
+(* ---------- the same two claims on the backend itself, operation by operation (model/FsImpl.v: the methods of s3.rs on a directory tree,
+   compared with the code entry by entry on every C18 run), for every tree, every bucket name and every key, traversal spellings included ---------- *)
+From S3V Require Import model.Store model.FsImpl proofs.FsFrame.
+(* an operation addressed to one bucket leaves every other bucket's directories, object files, metadata files (of objects and of uploads)
+   and internal-info files exactly as they were; a copy only reads its source; part uploads touch no bucket *)
+Theorem C17_other_buckets_untouched : forall mp t o bk', ~ In bk' (op_buckets o) ->
+  bucket_view (fst (fs_step mp t o)) bk' = bucket_view t bk'.
+Proof. exact other_buckets_untouched. Qed.
+Print Assumptions C17_other_buckets_untouched.
+(* every directory and object file of every reachable tree lies inside the directory of a valid bucket name, under component names that are
+   neither empty, ".", "..", nor contain a '/': nothing is ever created above a bucket directory or outside the root *)
+Theorem C17_tree_stays_confined : forall mp ops t, tree_confined t -> tree_confined (fst (fs_run mp t ops)).
+Proof. exact reachable_trees_confined. Qed.
+Print Assumptions C17_tree_stays_confined.
+Example C17_traversal_keys_example :
+  let h := [CreateBucket (b "bkt-a"); CreateBucket (b "bkt-b"); Put (b "bkt-b") (b "zz") (b "secret") None [] false;
+            Put (b "bkt-a") (b "../bkt-b/zz") (b "overwrite") None [] false; Put (b "bkt-a") (b "a/../../bkt-b/new") (b "x") None [] false;
+            Put (b "bkt-a") (b "a/../b") (b "fine") None [] false; Get (b "bkt-a") (b "../bkt-b/zz") None; Delete (b "bkt-a") (b "x/../../bkt-b/zz");
+            Copy (b "bkt-a") (b "../../outside") (b "bkt-b") (b "zz"); Put (b "..") (b "k") (b "x") None [] false; Get (b "bkt-b") (b "zz") None] in
+  fs_run_outputs 8 h = b "ok
+ok
+ok:""5ebe2294ecd0e0f08eab7690d2a6ee69""
+err:InternalError
+err:InternalError
+ok:""fff25994ee3941b225ba898fd17d186f""
+err:InternalError
+err:InternalError
+err:InternalError
+err:InternalError
+ok:736563726574|len=6|range=-|etag=""5ebe2294ecd0e0f08eab7690d2a6ee69""|meta=-"
+  /\ map fst (f_objs (fst (fs_run 8 empty_fs h))) = [[b "bkt-a"; b "b"]; [b "bkt-b"; b "zz"]].
+Proof. vm_compute. split; reflexivity. Qed.
+Print Assumptions C17_traversal_keys_example.
+
+(* writes that overlap in time share nothing but the root directory: the temporary file of each is named by the process-wide counter,
+   never by its destination, so no write of one bucket can hold a file another bucket's write is about to publish (the protocol itself
+   is C19's; the obligation is re-translated from crates/s3s-fs/src on every run) *)
+From S3V Require Import model.FsWriteProtocol gen.FsWriteSites.
+Theorem C17_temp_files_are_per_writer :
+  protocol_as_modelled gen_prepare_file_write gen_writer_done gen_writer_drop gen_tmp_counter_lines gen_prepare_calls = true.
+Proof. vm_compute. reflexivity. Qed.
+Print Assumptions C17_temp_files_are_per_writer.
